@@ -288,6 +288,17 @@ def dip_effect_equal(code, n, body):
     return effect(code) == effect([{'prim': 'DIP', 'args': [{'int': str(n)}, body]}])
 
 
+def _undecided_if_unmodelled(r):
+    """the depth argument spelled in a way the engine does not model (an opaque text): UNDECIDED, not a violation"""
+    from vlib.pyvc.engine import Opaque
+    try:
+        v = r['args'][0]['int']
+    except Exception:   # noqa
+        return
+    if isinstance(v, Opaque) or (getattr(v, '__pyvc_symbolic__', False) and not isinstance(v, IntStr)):
+        raise Unsupported(f'decimal spelling of the depth is not modelled: {v!r}')
+
+
 def h_depth(mac, which, annots, body_label='plain'):
     import copy
     body = copy.deepcopy(BODIES[body_label])
@@ -302,6 +313,7 @@ def h_depth(mac, which, annots, body_label='plain'):
             except RaiseEx:
                 e.check(f'{tag}::safety.expands', z3.BoolVal(False))
                 return
+            _undecided_if_unmodelled(r)
             shape = (isinstance(r, dict) and set(r) == {'prim', 'args'} and r['prim'] == 'DIP' and isinstance(r['args'], list) and len(r['args']) == 2
                      and isinstance(r['args'][0], dict) and set(r['args'][0]) == {'int'} and isinstance(r['args'][0]['int'], IntStr))
             e.check(f'{tag}::ensures.is(DIP n code)', z3.BoolVal(bool(shape)))
@@ -317,6 +329,7 @@ def h_depth(mac, which, annots, body_label='plain'):
                 e.check(f'{tag}::safety.expands', z3.BoolVal(False))
                 return
             keys = {'prim', 'args'} | ({'annots'} if annots else set())
+            _undecided_if_unmodelled(r)
             shape = (isinstance(r, dict) and set(r) == keys and r['prim'] == 'DUP' and isinstance(r['args'], list) and len(r['args']) == 1
                      and isinstance(r['args'][0], dict) and set(r['args'][0]) == {'int'} and isinstance(r['args'][0]['int'], IntStr))
             e.check(f'{tag}::ensures.is(DUP n)', z3.BoolVal(bool(shape)))
